@@ -144,9 +144,21 @@ def stores_in(t: Term):
                 rec(a)
         elif x[0] in ("mut", "aug"):
             rec(x[1] if x[0] == "mut" else x[2])
+        elif x[0] == "call" and x[1] == ("global", "numpy.where") and len(x[2]) == 3 and _is_zeros(x[2][2]):
+            # out-of-place: `where(selected, A, zeros(n))` with `selected = zeros(n, bool); selected[I] = True`
+            # is `w = zeros(n); w[I] = A[I]`
+            m_ = x[2][0]
+            if m_[0] == "update" and m_[4] == ("const", True) and _is_zeros(m_[1]):
+                out.append((m_[3], ("sub", x[2][1], m_[3])))
 
     rec(t)
     return out
+
+
+def _is_zeros(t: Term) -> bool:
+    while t[0] == "mut":
+        t = t[1]
+    return (t[0] == "call" and t[1] in (("global", "numpy.zeros"), ("global", "numpy.zeros_like"))) or t in (("const", 0), ("const", 0.0), ("const", False))
 
 
 @rule(P)
